@@ -103,7 +103,7 @@ class Engine:
         self._ensure_model()
         return self.model
 
-    def decide(self, expr, simplified=False):
+    def decide(self, expr, simplified=False, payload=None):
         if not simplified:
             expr = z3.simplify(expr)
         if z3.is_true(expr):
@@ -116,12 +116,12 @@ class Engine:
             return self.known[key]
         if len(self.known) > self.max_decisions:
             raise Unsupported("decision budget exceeded")
-        choice = self._decide(expr)
+        choice = self._decide(expr, payload)
         self.known[key] = choice
         self._keep.append(expr)
         return choice
 
-    def _decide(self, expr):
+    def _decide(self, expr, payload=None):
         if self.pos < len(self.prefix):
             choice = self.prefix[self.pos][0]
             self.pos += 1
@@ -141,18 +141,21 @@ class Engine:
         self.solver.pop()
         if r == z3.sat:
             choice = True
-            self.prefix.append([True, True])
+            self.prefix.append([True, True, payload])
             if not mv:
                 self.model = other_model
         else:
             choice = mv
-            self.prefix.append([mv, False])
+            self.prefix.append([mv, False, payload])
         self.pos += 1
         self.solver.add(expr if choice else z3.Not(expr))
         return choice
 
     def realize_int(self, expr):
-        """fork over all feasible values of an int expr; returns a concrete int"""
+        """fork over all feasible values of an int expr; returns a concrete int.  The candidate
+        value comes from the current model the first time a decision is made and is *recorded in
+        the decision prefix*; a re-execution that replays the prefix uses the recorded value, so
+        it asks exactly the same questions whatever model the solver happens to produce."""
         expr = z3.simplify(expr)
         if z3.is_int_value(expr):
             return expr.as_long()
@@ -161,9 +164,12 @@ class Engine:
             return self.realized[rid]
         n = 0
         while True:
-            self._ensure_model()
-            v = self.model.eval(expr, model_completion=True).as_long()
-            if self.decide(expr == v):
+            if self.pos < len(self.prefix) and self.prefix[self.pos][2] is not None:
+                v = self.prefix[self.pos][2]
+            else:
+                self._ensure_model()
+                v = self.model.eval(expr, model_completion=True).as_long()
+            if self.decide(expr == v, payload=v):
                 self.realized[rid] = v
                 self._keep.append(expr)
                 return v
@@ -255,7 +261,7 @@ class Engine:
                 self.prefix.pop()
             if not self.prefix:
                 return results, True
-            self.prefix[-1] = [not self.prefix[-1][0], False]
+            self.prefix[-1] = [not self.prefix[-1][0], False, self.prefix[-1][2]]
             if (max_paths and self.stats["paths"] >= max_paths) or (deadline and time.time() > deadline):
                 return results, False
 
